@@ -437,11 +437,11 @@ Proof.
   need_par Hps. by_post Hl.
 Qed.
 
-Lemma decrpm_quiet ps c s : nonempty_all ps -> live s ->
-  okspec [] (paste s) (req_cursor s) (decrpm ps c s).
+Lemma decrpm_quiet perm ps c s : nonempty_all ps -> live s ->
+  okspec [] (paste s) (req_cursor s) (decrpm_gen perm ps c s).
 Proof.
-  intros Hps Hl. unfold decrpm. destruct (zlen ps <? 2) eqn:E; [by_post Hl|].
-  need_par Hps. destruct ((v =? 1) || (v =? 2)); by_post Hl.
+  intros Hps Hl. unfold decrpm_gen. destruct (zlen ps <? 2) eqn:E; [by_post Hl|].
+  need_par Hps. destruct ((v =? 1) || (v =? 2) || (perm && (v =? 3))); by_post Hl.
 Qed.
 
 Lemma csi_y inter ps s : nonempty_all ps -> live s -> spec_ok s (ICsi inter ps 121) (handle_csi dec inter ps 121 s).
@@ -909,7 +909,7 @@ Ltac crush Hps :=
 Lemma safe_csi q inter ps fin s : nonempty_all ps -> (q = None -> q_stalled s = None) ->
   safe q (handle_csi dec inter ps fin s).
 Proof.
-  intros Hps Hq. unfold handle_csi, decrpm, send_cursor, send_size_done.
+  intros Hps Hq. unfold handle_csi, decrpm, decrpm_gen, send_cursor, send_size_done.
   crush Hps.
   all: try (apply safe_da1; assumption).
   assert (Hfin : fin = 77 \/ fin = 109) by lia.
@@ -1203,7 +1203,7 @@ Lemma eu_csi inter ps fin s : nonempty_all ps ->
   exact_upd (ICsi inter ps fin) s (handle_csi dec inter ps fin s).
 Proof.
   intros Hps. pose proof (frame_refl (ICsi inter ps fin) s) as F0.
-  unfold handle_csi, decrpm, send_cursor, send_size_done.
+  unfold handle_csi, decrpm, decrpm_gen, send_cursor, send_size_done.
   crush Hps.
   apply eu_da1; [cbn; rewrite Heqb, Heqb0; reflexivity|assumption|assumption].
 Qed.
